@@ -47,6 +47,17 @@ def gen(tier, rng, scale):
         if srng.chance(1, 3):
             c["shuffle"] = srng.next()
         cases.append(c)
+    # sample records of unusual but legal shape: no PERF_SAMPLE_IP and / or no PERF_SAMPLE_CALLCHAIN in the event's sample_type, call chains
+    # that are empty or hold context markers only - a sample without a single frame is still a sample of its thread
+    crng = rng.fork("chains")
+    for _ in range((50 if tier == "quick" else 1000) * scale):
+        recs = E.gen_history(crng, grammar=crng.chance(1, 2))
+        c = {"items": recs, "layout": [crng.chance(1, 2), crng.chance(1, 2), crng.chance(1, 3), crng.chance(3, 4), crng.choice(["mixed", "mixed", "std"])]}
+        if crng.chance(1, 3):
+            c["shuffle"] = crng.next()
+        if crng.chance(1, 4):
+            c["flags"] = crng.choice([["--reuse-threads"], ["--fold-recursive-prefix"]])
+        cases.append(c)
     return cases
 
 
